@@ -146,6 +146,13 @@ class Recorder:
 
     def _hygiene_variants(self, f, a, k, out, name, rng_state):
         ext = _is_plain(f, name)
+        floor = 0.0
+        for v in _arrays_in(list(a) + list(k.values())):
+            if v.dtype.kind in 'fciu':
+                fv = np.abs(v[np.isfinite(v)]) if v.dtype.kind in 'fc' else np.abs(v)
+                if fv.size:
+                    floor = max(floor, float(fv.max()))
+        floor = max(floor, 1.0) if floor else 0.0
         ref = [o.copy() for o in _result_arrays(out, ext)]
         # the identical call again (same global RNG state): the answer depends on the arguments only
         self.evals += 1
@@ -155,7 +162,7 @@ class Recorder:
         except Exception as e:   # noqa
             self.violation(f'{name}:hygiene:not-repeatable', f'{name} raised {type(e).__name__} when the identical call was repeated: {e}')
             return
-        if not _close_lists(rep, ref):
+        if not _close_lists(rep, ref, floor):
             self.violation(f'{name}:hygiene:not-repeatable', f'{name} gives a different result when the identical call is repeated')
             return
         # (e) a plain function's result belongs to the caller: scribbling on it must not change what the next identical call returns
@@ -174,7 +181,7 @@ class Recorder:
                     self.evals += 1
                     np.random.set_state(rng_state)
                     again = _result_arrays(f(*inputs_before, **kw_before), ext)
-                    if not _close_lists(again, ref):
+                    if not _close_lists(again, ref, floor):
                         self.violation(f'{name}:hygiene:result-shared-with-internal-state',
                                        f'after the caller wrote into the array returned by {name}, the next identical call returns the modified values (the result aliases a cache / module-level table)')
             except Exception:   # noqa
@@ -193,7 +200,7 @@ class Recorder:
             try:
                 np.random.set_state(rng_state)
                 o2 = _result_arrays(f(*fa, **fk), ext)
-                if not _close_lists(o2, ref):
+                if not _close_lists(o2, ref, floor):
                     self.violation(f'{name}:hygiene:memory-layout', f'{name} gives a different result for Fortran-ordered copies of its array arguments')
             except Exception as e:   # noqa
                 self.violation(f'{name}:hygiene:memory-layout', f'{name} raised {type(e).__name__} for Fortran-ordered array arguments: {e}')
@@ -213,7 +220,7 @@ class Recorder:
                         v[...] = nv
                     np.random.set_state(rng_state)
                     got = _result_arrays(f(*a, **k), ext)
-                    if not _close_lists(got, want):
+                    if not _close_lists(got, want, floor):
                         self.violation(f'{name}:hygiene:stale-for-reused-buffer',
                                        f'{name} called again after its argument buffer was overwritten in place answers for the old content')
                 except Exception:   # noqa  -- the flipped content may be outside the routine's domain: not judged
@@ -405,7 +412,7 @@ def _swap(v, olds, news):
     return v
 
 
-def _close_lists(got, want):
+def _close_lists(got, want, floor=0.0):
     if len(got) != len(want):
         return False
     for g, w in zip(got, want):
@@ -424,7 +431,7 @@ def _close_lists(got, want):
             return False
         scale = float(np.max(np.abs(ww[fin]))) if fin.any() else 0.0
         small = g.dtype in (np.float32, np.complex64) or w.dtype in (np.float32, np.complex64)
-        tol = (1e-4 if small else 1e-9) * max(scale, 1e-300)
+        tol = (1e-4 if small else 1e-9) * max(scale, 1e-300) + (1e-6 if small else 1e-12) * floor   # floor: results that are pure cancellation noise of O(1) inputs
         if fin.any() and float(np.max(np.abs(gg[fin] - ww[fin]))) > tol:
             return False
     return True
